@@ -1,6 +1,9 @@
 /* tree world: C01 (ordered trees hold the inserted-minus-erased multiset, in order), C02 (red-black rules), C15 (clear), for
  * cstl_bintree and cstl_rbtree (selected per configuration) */
 #include "cstl/rbtree.h"
+#ifndef TREE_PRIVATE
+#define TREE_PRIVATE 1      /* 0 (the C01 and C15 checks): no private member of the library's structs is named; the red-black walk (C02) needs them */
+#endif
 #include <limits.h>
 #define W_AUDIT_NEW_STATES_ONLY 1   /* the key holds the implementation's raw state AND the reference model, so the audit verdict is a function of the key */
 #include "../engine/mc.h"
@@ -13,7 +16,7 @@ static const char *w_name = "tree";
 static unsigned w_prop_bit(const char *id) { return !strcmp(id, "C01") ? PC01 : !strcmp(id, "C02") ? PC02 : !strcmp(id, "C15") ? PC15 : 0; }
 
 #define MAXN 14
-struct elem { long pad; int key; int idx; struct cstl_rbtree_node rn; long tail; struct cstl_rbtree_node rn2; };      /* rn2: where the OTHER tree object's elements would keep their node; never linked */
+struct elem { long pad; int key; int idx; struct cstl_rbtree_node rn; long tail; struct cstl_rbtree_node rn2; struct cstl_bintree_node bn1; long tail2; struct cstl_bintree_node bn2; };      /* rn2: where the OTHER tree object's elements would keep their node; never linked */
 static struct elem pool[MAXN];
 static int N, keys[MAXN], nkeys_alpha, key_alpha[MAXN + 2];
 static int USE_MACRO;   /* odd configurations build the tree with CSTL_RBTREE_INITIALIZER / CSTL_BINTREE_INITIALIZER instead of the init function */
@@ -101,7 +104,7 @@ static void t_init(int t)
 {
     memset(&T[t], 0xA5, sizeof T[t]);
     if (RB) cstl_rbtree_init(&T[t].rb, cmp_elem, &cookie[0], offsetof(struct elem, rn));
-    else cstl_bintree_init(&T[t].bt, cmp_elem, &cookie[0], offsetof(struct elem, rn) + offsetof(struct cstl_rbtree_node, n));
+    else cstl_bintree_init(&T[t].bt, cmp_elem, &cookie[0], offsetof(struct elem, bn1));
 }
 /* the tree under test: odd configurations use the static initialiser (what DECLARE_CSTL_RBTREE / DECLARE_CSTL_BINTREE expand to) */
 static void t_build(int t)
@@ -109,16 +112,18 @@ static void t_build(int t)
     if (!USE_MACRO) { t_init(t); return; }
     memset(&T[t], 0xA5, sizeof T[t]);
     if (RB) T[t].rb = (struct cstl_rbtree)CSTL_RBTREE_INITIALIZER(struct elem, rn, cmp_elem, &cookie[0]);
-    else T[t].bt = (struct cstl_bintree)CSTL_BINTREE_INITIALIZER(struct elem, rn.n, cmp_elem, &cookie[0]);
+    else T[t].bt = (struct cstl_bintree)CSTL_BINTREE_INITIALIZER(struct elem, bn1, cmp_elem, &cookie[0]);
 }
 /* the second object is a tree of another kind: other comparator, other private pointer, node at another offset */
 static void t_init_other(int t)
 {
     memset(&T[t], 0xA5, sizeof T[t]);
     if (RB) cstl_rbtree_init(&T[t].rb, cmp_other, &cookie[1], offsetof(struct elem, rn2));
-    else cstl_bintree_init(&T[t].bt, cmp_other, &cookie[1], offsetof(struct elem, rn2) + offsetof(struct cstl_rbtree_node, n));
+    else cstl_bintree_init(&T[t].bt, cmp_other, &cookie[1], offsetof(struct elem, bn2));
 }
+#if TREE_PRIVATE
 static struct cstl_bintree *t_bt(int t) { return RB ? &T[t].rb.t : &T[t].bt; }
+#endif
 static size_t t_size(int t) { return RB ? cstl_rbtree_size(&T[t].rb) : cstl_bintree_size(&T[t].bt); }
 static void t_insert(int t, void *e, void *p) { if (RB) cstl_rbtree_insert(&T[t].rb, e, p); else cstl_bintree_insert(&T[t].bt, e, p); }
 static const void *t_find(int t, const void *e, const void **par) { return RB ? cstl_rbtree_find(&T[t].rb, e, par) : cstl_bintree_find(&T[t].bt, e, par); }
@@ -157,12 +162,14 @@ static int idx_of(const void *e)
     if ((uintptr_t)e < (uintptr_t)pool || d >= sizeof(struct elem) * (size_t)N || d % sizeof(struct elem)) return -1;
     return (int)(d / sizeof(struct elem));
 }
+#if TREE_PRIVATE
 static struct elem *elem_of_bn(const struct cstl_bintree_node *bn)
 {
-    uintptr_t e = (uintptr_t)bn - offsetof(struct elem, rn) - offsetof(struct cstl_rbtree_node, n);
+    uintptr_t e = (uintptr_t)bn - (RB ? offsetof(struct elem, rn) + offsetof(struct cstl_rbtree_node, n) : offsetof(struct elem, bn1));
     int i = idx_of((void *)e);
     return i < 0 ? NULL : &pool[i];
 }
+#endif
 
 /* ---- traversal recording ---- */
 #define MAXV (3 * MAXN + 16)
@@ -187,14 +194,18 @@ static void cb_clear(void *e, void *p)
 }
 
 /* classify the erase case from the raw structure before the call (diagnostic counters only) */
+#if TREE_PRIVATE
 static void classify_erase(const struct elem *e)
 {
-    const struct cstl_bintree_node *bn = &e->rn.n;
+    const struct cstl_bintree_node *bn = RB ? &e->rn.n : &e->bn1;
     if (bn->p == NULL) MC_COUNT(K_ERASE_ROOT);
     if (bn->l && bn->r) { if (bn->r->l == NULL) MC_COUNT(K_ERASE_TWO_CHILD); else MC_COUNT(K_ERASE_TWO_CHILD_DEEP); }
     else if (bn->l || bn->r) MC_COUNT(K_ERASE_ONE_CHILD);
     else MC_COUNT(K_ERASE_LEAF);
 }
+#else
+static void classify_erase(const struct elem *e) { (void)e; }
+#endif
 
 static void audit_tree(int t, unsigned props);
 static void check_fresh(void);
@@ -249,7 +260,9 @@ static void w_apply(mc_op_t o)
             MC_CHECK(PC15 | PC01, clr_bad == 0 && vbad == 0, "clear called back with a pointer that is no element or with a wrong private pointer");
             for (i = 0; i < N; i++) MC_CHECK(PC15 | PC01, clr_count[i] == m_member[i], "clear: element %d handed over %d times, expected %d", i, clr_count[i], m_member[i]);
             MC_CHECK(PC15 | PC01, t_size(0) == 0, "clear left size %zu", t_size(0));
-            check_fresh();
+#if TREE_PRIVATE
+            check_fresh();      /* field by field; without private names the search itself decides (the cleared state is expanded and audited like any other) */
+#endif
         }
         for (i = 0; i < N; i++) m_member[i] = 0;
         m_count = 0;
@@ -284,6 +297,7 @@ static void w_apply(mc_op_t o)
 }
 
 /* ---- structural walk over the public struct (used for C02 and for the canonical key) ---- */
+#if TREE_PRIVATE
 static int st_nodes, st_bad;
 static const char *st_why;
 static int rb_walk(const struct cstl_bintree_node *bn, const struct cstl_bintree_node *parent, int depth)
@@ -307,6 +321,7 @@ static int rb_walk(const struct cstl_bintree_node *bn, const struct cstl_bintree
     return lh + (red ? 0 : 1);
 }
 
+#endif
 static void audit_tree(int t, unsigned props01)
 {
     int rev, j, k, ab, vtotal = 0;
@@ -381,6 +396,7 @@ static void w_audit(void)
 {
     int k;
     /* the red-black rules are judged first and from the raw structure alone, so that a change which ALSO loses elements (a C01 matter) is still seen as the C02 violation it is */
+#if TREE_PRIVATE
     if (RB) {
         const struct cstl_bintree *bt = t_bt(0);
         size_t hmin = 0, hmax = 0; int ab;
@@ -404,15 +420,21 @@ static void w_audit(void)
             MC_CHECK(PC02, (m_count == 0) == (hmax == 0) && hmin <= hmax, "cstl_rbtree_height reports min %zu max %zu for %d elements", hmin, hmax, m_count);
         }
     }
+#endif
     audit_tree(0, PC01);
     if (mc_branch_dead) return;
+#if TREE_PRIVATE
     MC_CHECK(PC01, t_size(1) == 0 && t_bt(1)->root == NULL, "the second (empty) tree object was disturbed");
+#else
+    MC_CHECK(PC01, t_size(1) == 0, "the second (empty) tree object was disturbed");
+#endif
     MC_CHECK(PC01 | PC15, vbad == 0, "a visit or clear callback received a private pointer other than the one the caller passed (%d calls)", vbad);
     MC_CHECK(PC01 | PC02, wrong_cmp == 0, "the comparison function of the OTHER (empty) tree object was called %d times: swap did not move the comparator with the content", wrong_cmp);
     MC_CHECK(PC01 | PC02, wrong_priv == 0, "the comparison function received a private pointer other than the one its tree was initialised with (%d calls)", wrong_priv);
-    for (k = 0; k < N; k++) MC_CHECK(PC01 | PC02, pool[k].pad == 0x1111 && pool[k].tail == 0x2222 && pool[k].key == keys[k] && pool[k].idx == k && untouched(&pool[k].rn2, sizeof pool[k].rn2), "element %d: bytes outside its tree node were modified", k);
+    for (k = 0; k < N; k++) MC_CHECK(PC01 | PC02, pool[k].pad == 0x1111 && pool[k].tail == 0x2222 && pool[k].key == keys[k] && pool[k].idx == k && untouched(&pool[k].rn2, sizeof pool[k].rn2) && untouched(&pool[k].bn2, sizeof pool[k].bn2) && pool[k].tail2 == 0x5A5A5A5A5A5A5A5AL && (RB ? untouched(&pool[k].bn1, sizeof pool[k].bn1) : untouched(&pool[k].rn, sizeof pool[k].rn)), "element %d: bytes outside its tree node were modified", k);
 }
 
+#if TREE_PRIVATE
 /* canonical key: preorder over the raw links with pool indices for addresses */
 static int ck_nodes;
 static void sym(const struct cstl_bintree_node *bn)
@@ -441,16 +463,33 @@ static void canon_one(int t)
     { ck_nodes = 0; KB_C('T'); KB_U(t_bt(t)->size); KB_C('o'); KB_U(t_bt(t)->off); if (RB) { KB_C('/'); KB_U(T[t].rb.off); }
       KB_C(t_bt(t)->cmp.func == cmp_elem ? 'e' : t_bt(t)->cmp.func == cmp_other ? 'o' : '?'); KB_C(t_bt(t)->cmp.priv == (void *)&cookie[0] ? '0' : t_bt(t)->cmp.priv == (void *)&cookie[1] ? '1' : '?'); KB_C(':'); ck(t_bt(t)->root); }
 }
-static void w_canon(void) { int i; canon_one(0); canon_one(1); KB_C('m'); for (i = 0; i < N; i++) KB_C(m_member[i] ? '1' : '0'); for (i = 0; i < N; i++) if (pool[i].pad != 0x1111 || pool[i].tail != 0x2222 || pool[i].key != keys[i] || !untouched(&pool[i].rn2, sizeof pool[i].rn2)) { KB_C('X'); KB_U((unsigned)i); } KB_C('w'); KB_U((unsigned)(vbad != 0)); KB_U((unsigned)(wrong_cmp != 0)); KB_U((unsigned)(wrong_priv != 0)); }
+#else
+/* canonical key without naming a private member: every byte of the tree object and of the node of every held element, addresses named */
+static int tsym(uintptr_t v)
+{
+    if (v >= (uintptr_t)pool && v < (uintptr_t)(pool + MAXN)) { size_t d = v - (uintptr_t)pool; KB_C('e'); KB_U(d / sizeof pool[0]); KB_C('+'); KB_U(d % sizeof pool[0]); return 1; }
+    if (v >= (uintptr_t)T && v < (uintptr_t)(T + 2)) { size_t d = v - (uintptr_t)T; KB_C('T'); KB_U(d / sizeof T[0]); KB_C('+'); KB_U(d % sizeof T[0]); return 1; }
+    if (v >= (uintptr_t)cookie && v < (uintptr_t)(cookie + 2)) { KB_C('K'); KB_U((v - (uintptr_t)cookie) / sizeof cookie[0]); return 1; }
+    return 0;
+}
+static void canon_one(int t)
+{
+    int i;
+    KB_C('T'); KB_MEM(&T[t], sizeof T[t], tsym); KB_C(':');
+    if (t == 0) for (i = 0; i < N; i++) if (m_member[i]) { KB_U((unsigned)i); KB_C('='); if (RB) KB_MEM(&pool[i].rn, sizeof pool[i].rn, tsym); else KB_MEM(&pool[i].bn1, sizeof pool[i].bn1, tsym); KB_C(' '); }
+}
+#endif
+static void w_canon(void) { int i; canon_one(0); canon_one(1); KB_C('m'); for (i = 0; i < N; i++) KB_C(m_member[i] ? '1' : '0'); for (i = 0; i < N; i++) if (pool[i].pad != 0x1111 || pool[i].tail != 0x2222 || pool[i].key != keys[i] || !untouched(&pool[i].rn2, sizeof pool[i].rn2) || !untouched(&pool[i].bn2, sizeof pool[i].bn2) || !(RB ? untouched(&pool[i].bn1, sizeof pool[i].bn1) : untouched(&pool[i].rn, sizeof pool[i].rn))) { KB_C('X'); KB_U((unsigned)i); } KB_C('w'); KB_U((unsigned)(vbad != 0)); KB_U((unsigned)(wrong_cmp != 0)); KB_U((unsigned)(wrong_priv != 0)); }
 /* C15: after clear the tree object must be field-for-field like a never-used tree object of the same configuration */
 static void check_fresh(void)
 {
-    char a[128], b[128]; size_t save = mc_kbn, n;
+    char a[128], b[128]; size_t save = mc_kbn, n; int keep_m[MAXN];
+    memcpy(keep_m, m_member, sizeof keep_m); memset(m_member, 0, sizeof m_member);      /* the object itself, not the (just handed over) elements */
     mc_kbn = 0; canon_one(0); n = mc_kbn < 127 ? mc_kbn : 127; memcpy(a, mc_kb, n); a[n] = 0;
     { char keep[sizeof T[1]]; memcpy(keep, &T[1], sizeof keep); t_init(1);       /* a never-used object of the same configuration */
       mc_kbn = 0; canon_one(1); n = mc_kbn < 127 ? mc_kbn : 127; memcpy(b, mc_kb, n); b[n] = 0;
       memcpy(&T[1], keep, sizeof keep); }
-    mc_kbn = save;
+    mc_kbn = save; memcpy(m_member, keep_m, sizeof keep_m);
     MC_CHECK(PC15, !strcmp(a, b), "after clear the tree is not like a freshly initialised one: fields %s, fresh %s", a, b);
 }
 
